@@ -612,9 +612,14 @@ class DiscoveryComputation(MessagePassingComputation):
 
     def _on_computation_removed(self, _: DiscoveryName,
                                 msg: UnPublishComputationMessage):
-        self.discovery.unregister_computation(
-            msg.computation, msg.agent, publish=False)
-        pass
+        try:
+            self.discovery.unregister_computation(
+                msg.computation, msg.agent, publish=False)
+        except ValueError:
+            # Stale un-publication: it names a previous host while we know
+            # the computation on another agent (e.g. just re-hosted), keep it.
+            self.logger.info('Ignoring stale un-publication of %s from %s',
+                             msg.computation, msg.agent)
 
     def _on_replica_publish(self, _, msg: PublishReplicaMessage):
         if msg.publish:
